@@ -177,6 +177,11 @@ loop:
 		// every launch is probed afresh (initial delay, failure counters): a prober that
 		// carried on across a restart never reached failure_threshold "in a row" again
 		p.stopProbes()
+		if p.liveProber != nil {
+			// a liveness result that was on its way when the prober was stopped
+			// has been delivered by now, and is forgotten with the rest
+			p.liveProber.WaitIdle()
+		}
 		p.forgetDaemonStopped()
 
 		if !p.isRestartable() {
